@@ -145,4 +145,49 @@ theorem post3_sorted (t : USV α) : (post3 t).S 0 ≥ (post3 t).S 1 ∧ (post3 t
     · exact le_trans (min_le_left _ _) (le_max_left _ _)
   · exact le_min (le_min ha hb) hc
 
+/-! ## 4×4: order after the insertion sort, determinants after forcePositiveDeterminant -/
+
+theorem swapCols_S (j k : Nat) (t : USV α) (c : Nat) :
+    (swapCols j k t).S c = t.S (if c = j then k else if c = k then j else c) := rfl
+
+theorem sabs_eq_abs' (a : α) : sabs a = |a| := by
+  unfold sabs
+  split_ifs with h
+  · exact (abs_of_pos h).symm
+  · exact (abs_of_nonpos (not_lt.mp h)).symm
+
+/-- the three insertions of the 4×4 post-pass sort four non-negative values in descending order
+(at most 6 comparisons: finite case split) -/
+theorem insert3_sorted (u : USV α) (h0 : 0 ≤ u.S 0) (h1 : 0 ≤ u.S 1) (h2 : 0 ≤ u.S 2) (h3 : 0 ≤ u.S 3) :
+    (insertCol 3 (insertCol 2 (insertCol 1 u))).S 0 ≥ (insertCol 3 (insertCol 2 (insertCol 1 u))).S 1 ∧
+    (insertCol 3 (insertCol 2 (insertCol 1 u))).S 1 ≥ (insertCol 3 (insertCol 2 (insertCol 1 u))).S 2 ∧
+    (insertCol 3 (insertCol 2 (insertCol 1 u))).S 2 ≥ (insertCol 3 (insertCol 2 (insertCol 1 u))).S 3 ∧
+    (insertCol 3 (insertCol 2 (insertCol 1 u))).S 3 ≥ 0 := by
+  simp only [insertCol, sabs_eq_abs']
+  split_ifs <;>
+    (try simp only [swapCols_S] at *) <;>
+    (try simp only [Nat.reduceEqDiff, OfNat.ofNat_ne_zero, OfNat.zero_ne_ofNat, OfNat.ofNat_ne_one, OfNat.one_ne_ofNat, one_ne_zero,
+      zero_ne_one, if_true, if_false] at *) <;>
+    (simp only [abs_of_nonneg h0, abs_of_nonneg h1, abs_of_nonneg h2, abs_of_nonneg h3] at *) <;>
+    (refine ⟨?_, ?_, ?_, ?_⟩ <;> linarith)
+
+/-- after the 4×4 post-pass the singular values are non-negative and descending -/
+theorem post4_sorted (t : USV α) :
+    (post4 t).S 0 ≥ (post4 t).S 1 ∧ (post4 t).S 1 ≥ (post4 t).S 2 ∧ (post4 t).S 2 ≥ (post4 t).S 3 ∧ (post4 t).S 3 ≥ 0 := by
+  unfold post4
+  apply insert3_sorted <;> (simp only [signFix_S]; simp)
+
+/-- `forcePositiveDeterminant` multiplies `det U` by `-1` exactly when the determinant it is given is negative (3×3) -/
+theorem forcePos_det3 (dU dV : α) (t : USV α) :
+    (toM 3 (forcePos 2 dU dV t).U).det = (if dU < 0 then -1 else 1) * (toM 3 t.U).det ∧
+    (toM 3 (forcePos 2 dU dV t).V).det = (if dV < 0 then -1 else 1) * (toM 3 t.V).det := by
+  unfold forcePos
+  constructor <;> split_ifs <;> simp [toM, Matrix.det_fin_three] <;> ring
+
+theorem forcePos_det4 (dU dV : α) (t : USV α) :
+    (toM 4 (forcePos 3 dU dV t).U).det = (if dU < 0 then -1 else 1) * (toM 4 t.U).det ∧
+    (toM 4 (forcePos 3 dU dV t).V).det = (if dV < 0 then -1 else 1) * (toM 4 t.V).det := by
+  unfold forcePos
+  constructor <;> split_ifs <;> simp [toM, Matrix.det_succ_row_zero, Fin.sum_univ_succ, Matrix.det_fin_three, Matrix.submatrix, Fin.succAbove] <;> ring
+
 end ImathVerif.Jacobi
